@@ -115,6 +115,15 @@ def streams(rng, tier):
     rnd = [random_case(rng) for _ in range(1500 if tier == "quick" else 20000)]
     out.append(("random", rnd))
     out.append(("shape", shape_cases(rng, 40 if tier == "quick" else 300)))
+    # the same cases on operands with a past (values.lived_in / lived_in_table): sorted before in another state,
+    # then rewritten in place - a sort is a function of the CURRENT contents
+    lived = []
+    for name, cases in out:
+        cand = [c for c in cases if (c.get("op") == "vector" and len(c.get("data") or []) >= 2)
+                or (c.get("op") != "vector" and c.get("cols") and len(c["cols"][0]) >= 2)]
+        for c in rng.sample(cand, min(len(cand), 300 if tier == "quick" else 3000)):
+            lived.append(dict(c, lived=rng.randrange(1 << 30)))
+    out.append(("lived-in", lived))
     return out
 
 
@@ -197,7 +206,10 @@ def observe(case):
     from serif import Table, Vector
     try:
         if case["op"] == "vector":
-            v = Vector([V.dec(x) for x in case["data"]], name="v")
+            if case.get("lived") is not None:
+                v = V.lived_in(lambda xs: Vector(xs, name="v"), [V.dec(x) for x in case["data"]], case["lived"])
+            else:
+                v = Vector([V.dec(x) for x in case["data"]], name="v")
             pre = [V.enc(x) for x in v._underlying]
             try:
                 r = v.sort_by(reverse=case["reverse"], na_last=case["na_last"])
@@ -208,7 +220,23 @@ def observe(case):
             return {"pre": pre, "out": out, "post": [V.enc(x) for x in v._underlying],
                     "again": [V.enc(x) for x in r2._underlying], "is_new": r is not v}
         names = case["names"]
-        t = Table({nm: [V.dec(x) for x in col] for nm, col in zip(names, case["cols"])})
+        if case.get("lived") is not None:
+            # the table has a past: it was sorted (same keys, same directions) while it held its rows in another
+            # order, then every cell was rewritten in place (values.lived_in_table)
+            wnames = [names[s_[1]] for s_ in case["by"] if s_[0] in ("n", "c") and s_[1] < len(names)] or names[:1]
+
+            def warm(tt):
+                for rv in (case["reverse"], False, True):
+                    try:
+                        tt.sort_by(wnames if len(wnames) > 1 else wnames[0],
+                                   reverse=rv if not isinstance(rv, list) or len(rv) == len(wnames) else False,
+                                   na_last=case["na_last"])
+                    except Exception:                        # noqa: BLE001
+                        pass
+            t, _ = V.lived_in_table(lambda cs: Table({nm: list(c) for nm, c in zip(names, cs)}),
+                                    [[V.dec(x) for x in col] for col in case["cols"]], case["lived"], warm)
+        else:
+            t = Table({nm: [V.dec(x) for x in col] for nm, col in zip(names, case["cols"])})
         pre = _enc_cols(t)
         vecs, by = [], []
         for spec in case["by"]:
